@@ -87,6 +87,20 @@ func genC04(w *World, res *CheckResult) {
 		res.Obls = append(res.Obls, selectObls(tmp.Obls, `^lexer\.unescapeChar/(safe:|loop:|pre-sat|cover:returns)`)...)
 		res.Functions = append(res.Functions, "lexer.unescapeChar")
 	}
+	// (1e) source line lookups used while binding an error to its source
+	for _, n := range []string{"file.Source.findLineOffset"} {
+		fn, ct := w.Func(n), w.Contracts[n]
+		if fn == nil || ct == nil {
+			res.Obls = append(res.Obls, missingObl(n+"/exists", "function or contract missing"))
+			continue
+		}
+		e := NewExec(w)
+		w.forceInline[n] = true
+		e.VerifyFunc(fn, ct, nil)
+		delete(w.forceInline, n)
+		res.Obls = append(res.Obls, e.obls...)
+		res.Functions = append(res.Functions, n)
+	}
 	// (1d) FindSuitableOperatorOverload indexes In(1)/In(2)/Out(0) of every registered operator function without a
 	// guard: Config.Check must have rejected every function of another shape
 	{
